@@ -90,6 +90,10 @@ def run_batch(ctx: Ctx, batch: list[dict]) -> None:
         core = core_t.format(n=it["n"]) if core_t else None
         it["pkg"], it["core"] = pkg, core
         case = {"doc": d.doc, "layout": [pkg_t, core_t], "strategy": it["strategy"]}
+        # what was generated earlier in THIS process (generator state can leak from one generation into the next): attached to
+        # foreign-import violations only, so that their replay re-runs the same sequence
+        earlier = [{"doc": b["doc"].doc, "layout": list(c01.LAYOUTS[b["layout"]]), "strategy": b["strategy"], "n": b["n"]}
+                   for b in batch[:batch.index(it)]]
         it["case"] = case
         res = genrun.generate(d.doc, root, pkg, core, force=True, strategy=it["strategy"],
                               spec_path=genrun.write_spec(d.doc, root / f"spec{it['n']}"))
@@ -111,7 +115,8 @@ def run_batch(ctx: Ctx, batch: list[dict]) -> None:
                 "models/<model>" if rel.startswith("models/") and not rel.endswith("__init__.py") else rel)
             for level, top, lineno, nested in scan_file(f, pkg.split(".")[0], core_pkg.split(".")[0], rec, rel):
                 if not judge(top, level, pkg.split(".")[0], core_pkg.split(".")[0]):
-                    rec.violation(f"ast:foreign_import:{relk}:{top}", feats + (["nested_import"] if nested else []), case,
+                    vcase = case if top == "black" else dict(case, earlier_in_process=earlier, n=it["n"])
+                    rec.violation(f"ast:foreign_import:{relk}:{top}", feats + (["nested_import"] if nested else []), vcase,
                                   f"{f}:{lineno} imports {top!r} ({'nested' if nested else 'top-level'})")
         # byte identity of the runtime files
         for r in RUNTIME:
@@ -245,6 +250,11 @@ def replay(ctx: Ctx, file: dict) -> None:
     if c.get("scenario") == "stale_core":
         stale_core_scenario(ctx, 0)
         return
-    li = [i for i, l in enumerate(c01.LAYOUTS) if [l[0], l[1]] == c["layout"]]
-    d = specgen.Doc(c["doc"], {}, [], set())
-    run_batch(ctx, [{"doc": d, "layout": li[0] if li else 0, "strategy": c.get("strategy", "operationId"), "n": 1}])
+    def idx(layout):
+        li = [i for i, l in enumerate(c01.LAYOUTS) if [l[0], l[1]] == list(layout)]
+        return li[0] if li else 0
+    items = [{"doc": specgen.Doc(b["doc"], {}, [], set()), "layout": idx(b["layout"]), "strategy": b.get("strategy", "operationId"), "n": b["n"]}
+             for b in c.get("earlier_in_process", [])]
+    items.append({"doc": specgen.Doc(c["doc"], {}, [], set()), "layout": idx(c["layout"]), "strategy": c.get("strategy", "operationId"),
+                  "n": c.get("n", 1)})
+    run_batch(ctx, items)
